@@ -1,7 +1,32 @@
+import AuModel.Constant
 import Driver.Util
+import Driver.Cmd.C02
+import Driver.Cmd.C11
+
+/-! Driver commands for C16.
+
+  constin <T> <ratio magpack>  →  can=<0|1> conv=<0|1> val=<integer | num/den | inf | nan | ->
+-/
 open Au
 
-def dispatchC16 : List String → Option String
-  | _ => none
+def cmdConstIn (args : List String) : String :=
+  match args with
+  | [ts, ms] =>
+    match parseMag? ms with
+    | none => "bad-op"
+    | some m =>
+      match IntTy.ofName? ts, FltTy.ofName? ts with
+      | some t, _ =>
+        match constantInInt t m with
+        | some r => s!"can=1 conv=1 val={evalStr r.val}"
+        | none => s!"can={b01 (canStoreInt t m)} conv=0 val=-"
+      | none, some f =>
+        match constantInFlt f m with
+        | some v => s!"can=1 conv=1 val={fltStr v}"
+        | none => s!"can={b01 (canStoreFlt f m)} conv=0 val=-"
+      | none, none => "bad-op"
+  | _ => "bad-op"
 
-/-! Driver commands for C16. -/
+def dispatchC16 : List String → Option String
+  | "constin" :: args => some (cmdConstIn args)
+  | _ => none
